@@ -50,9 +50,17 @@ def _mk(kind, parts):
 
 
 class Normaliser:
-    def __init__(self, resolve: Optional[Callable[[ast.Name], Optional[ast.AST]]] = None, rename: Optional[Callable[[str], str]] = None):
+    """``nan_strict``: the negation of an *ordering* comparison is kept as
+    ``not(a <= b)`` instead of being rewritten to ``b < a`` - the two differ exactly
+    when an operand is NaN (every ordering comparison with NaN is False), which
+    matters for validators that must reject NaN bounds."""
+
+    def __init__(self, resolve: Optional[Callable[[ast.Name], Optional[ast.AST]]] = None, rename: Optional[Callable[[str], str]] = None,
+                 inline: Optional[Callable[[ast.Call], Optional[ast.AST]]] = None, nan_strict: bool = False):
         self.resolve = resolve or (lambda n: None)
         self.rename = rename or (lambda s: s)
+        self.inline = inline
+        self.nan_strict = nan_strict
         self._depth = 0
 
     def term(self, e) -> str:
@@ -83,6 +91,8 @@ class Normaliser:
                 same = (rel == "==") == pos
                 return ("iff" if same else "xor", frozenset([a, b]))
             if not pos:
+                if self.nan_strict and rel in ("<", "<=", ">", ">="):
+                    return ("not", _cmp(rel, self.term(l), self.term(r)))
                 rel = _NEGREL[rel]
             return _cmp(rel, self.term(l), self.term(r))
         if n in ("np.isfinite", "np.isreal", "np.isnan", "np.isinf", "np.isscalar") and e.args:
@@ -92,6 +102,14 @@ class Normaliser:
             return ("pred", name, self.term(e.args[0]), pos)
         if isinstance(e, ast.Name) and self._depth < 6:
             d = self.resolve(e)
+            if d is not None:
+                self._depth += 1
+                try:
+                    return self.elem(d, pos)
+                finally:
+                    self._depth -= 1
+        if isinstance(e, ast.Call) and self.inline is not None and self._depth < 6:
+            d = self.inline(e)
             if d is not None:
                 self._depth += 1
                 try:
@@ -158,6 +176,8 @@ def show(f) -> str:
         return show(f[1])
     if k == "cmp":
         return f"{f[2]} {f[1]} {f[3]}"
+    if k == "not":
+        return f"not({show(f[1])})"
     if k == "pred":
         return ("" if f[3] else "not ") + f"{f[1]}({f[2]})"
     if k == "opaque":
